@@ -431,17 +431,25 @@ def special_cased_names(repo):
     st = v.cfg.stmt[n]
     if not isinstance(st, ast.If):
       continue
-    t = st.test
     got = set()
-    if isinstance(t, ast.Compare) and len(t.ops) == 1 and \
-        "call['predicate_name']" in norm(t.left).replace('"', "'"):
-      if isinstance(t.ops[0], ast.Eq) and const_str(t.comparators[0]):
-        got.add(const_str(t.comparators[0]))
-      elif isinstance(t.ops[0], ast.In):
-        try:
-          got |= set(tables.const_value(t.comparators[0]))
-        except AnalysisError:
-          pass
+    # one comparison of the predicate name (possibly held in a local), or an
+    # `or` chain of such comparisons
+    tests = st.test.values if isinstance(st.test, ast.BoolOp) and isinstance(st.test.op, ast.Or) \
+        else [st.test]
+    for t in tests:
+      if isinstance(t, ast.Compare) and len(t.ops) == 1 and \
+          "call['predicate_name']" in norm(v.expand(t.left, 2, stop=('call',))).replace('"', "'"):
+        if isinstance(t.ops[0], ast.Eq) and const_str(t.comparators[0]):
+          got.add(const_str(t.comparators[0]))
+          continue
+        elif isinstance(t.ops[0], ast.In):
+          try:
+            got |= set(tables.const_value(t.comparators[0]))
+            continue
+          except AnalysisError:
+            pass
+      got = set()
+      break
     if not got:
       continue
     # the branch must return / raise on every path, and dominate the loop's
